@@ -9,7 +9,7 @@ from .values import *  # noqa
 BUILTINS = {
     "len", "min", "max", "round", "abs", "float", "int", "str", "bool", "isinstance", "list", "tuple",
     "set", "dict", "sorted", "sum", "zip", "range", "enumerate", "iter", "next", "hasattr", "getattr",
-    "super", "print", "any", "all", "reversed", "type", "id",
+    "super", "print", "any", "all", "reversed", "type", "id", "divmod",
 }
 SPEC_FORMS = {"is_int", "forall", "exists", "forall_int", "exists_int", "sum_", "old", "implies", "iff", "let", "fresh"}
 
@@ -191,9 +191,7 @@ def arith(eng, opn, a, b, line):
     if b is not None:
         b = as_num(eng, b, line)
     if opn == "neg":
-        if is_conc_num(a.t):
-            return SV(a.sort, -a.t)
-        return SV(a.sort, -a.t)
+        return SV(a.sort, -a.t, "dec" if a.aux == "dec" else None)
     x, y = a.t, b.t
     if opn in ("Mult", "Div") and not is_conc_num(x) and not is_conc_num(y):
         # non-linear: an integer operand that the path condition pins to one value is replaced by it
@@ -203,12 +201,15 @@ def arith(eng, opn, a, b, line):
             y = pinned_int(eng, y)
     conc = is_conc_num(x) and is_conc_num(y)
     s = num_sort(a, b)
+    # a REAL that came out of decimal.Decimal(...) carries aux="dec" through + - * (Python refuses to mix Decimal and float,
+    # so one tagged operand tags the result): // and % truncate for Decimal and floor for float
+    dec = "dec" if s == REAL and (a.aux == "dec" or b.aux == "dec") else None
     if opn == "Add":
-        return SV(s, x + y if conc else _z(x, s) + _z(y, s))
+        return SV(s, x + y if conc else _z(x, s) + _z(y, s), dec)
     if opn == "Sub":
-        return SV(s, x - y if conc else _z(x, s) - _z(y, s))
+        return SV(s, x - y if conc else _z(x, s) - _z(y, s), dec)
     if opn == "Mult":
-        return SV(s, x * y if conc else _z(x, s) * _z(y, s))
+        return SV(s, x * y if conc else _z(x, s) * _z(y, s), dec)
     if opn == "Div":
         # ZeroDivisionError path
         if is_conc_num(y):
@@ -228,14 +229,18 @@ def arith(eng, opn, a, b, line):
                 return SV(INT, x // y)
             if not eng.spec_mode and eng.branch(zr(y) == 0, "div0"):
                 raise PyRaise_("ZeroDivisionError", line)
-            return SV(INT, zr(x) / zr(y))  # z3 int division is floor for positive divisor
-        raise EngineLimit("real floor division")
+            return SV(INT, _int_floordiv(zr(x), zr(y)))
+        return real_divmod(eng, x, y, dec, line)[0]
     if opn == "Mod":
         if s == INT:
             if conc:
+                if y == 0:
+                    raise PyRaise_("ZeroDivisionError", line)
                 return SV(INT, x % y)
-            return SV(INT, zr(x) % zr(y))
-        raise EngineLimit("real modulo")
+            if not eng.spec_mode and eng.branch(zr(y) == 0, "div0"):
+                raise PyRaise_("ZeroDivisionError", line)
+            return SV(INT, zr(x) - zr(y) * _int_floordiv(zr(x), zr(y)))
+        return real_divmod(eng, x, y, dec, line)[1]
     if opn == "Pow":
         if is_conc_num(y) and isinstance(y, int) and 0 <= y <= 4:
             r = SV(INT, 1)
@@ -244,6 +249,45 @@ def arith(eng, opn, a, b, line):
             return r
         raise EngineLimit("power")
     raise EngineLimit("binary operator %s" % opn)
+
+
+def _int_floordiv(x, y):
+    """Python's floor division on integers: SMT-LIB div is the floor only for a positive divisor"""
+    if z3.is_int_value(y):
+        return x / y if y.as_long() > 0 else (-x) / (-y)
+    return z3.If(y > 0, x / y, (-x) / (-y))
+
+
+def real_divmod(eng, x, y, dec, line):
+    """(x // y, x % y) on REAL operands.  float: floor, remainder with the divisor's sign; Decimal (aux == "dec"): truncation
+    towards zero, remainder with the dividend's sign.  An untagged operand pair whose quotient is negative and inexact is
+    ambiguous between the two and stops the engine (EngineLimit) rather than guessing."""
+    if is_conc_num(x) and is_conc_num(y):
+        if y == 0:
+            raise PyRaise_("ZeroDivisionError", line)
+        fx, fy = Fraction(x), Fraction(y)
+        q = fx / fy
+        import math
+
+        if dec == "dec":
+            qi = math.floor(q) if q >= 0 else -math.floor(-q)
+        else:
+            qi = math.floor(q)
+            if q < 0 and qi != q:
+                raise EngineLimit("// or % on a negative inexact real quotient of unknown kind (float floors, Decimal truncates)")
+        return SV(REAL, Fraction(qi), dec), SV(REAL, fx - fy * qi, dec)
+    zx, zy = zreal(x), zreal(y)
+    if not eng.spec_mode and eng.branch(zy == 0, "div0"):
+        raise PyRaise_("ZeroDivisionError", line)
+    q = zx / zy
+    fl = z3.ToReal(z3.ToInt(q))
+    if dec == "dec":
+        qi = z3.If(q >= 0, fl, -z3.ToReal(z3.ToInt(-q)))
+    else:
+        if not eng.spec_mode and eng.branch(z3.And(q < 0, fl != q), "floor-vs-trunc"):
+            raise EngineLimit("// or % on a negative inexact real quotient of unknown kind (float floors, Decimal truncates)")
+        qi = fl
+    return SV(REAL, qi, dec), SV(REAL, zx - zy * qi, dec)
 
 
 def pinned_int(eng, t):
